@@ -290,6 +290,25 @@ theorem forRange_const {σ : Type} (n : Int) (init : σ) (f : Int → σ → σ)
     funext s k; exact h _ _
   rw [this, Int.sub_zero, foldl_range_const]
 
+/-- loop invariant rule for `forRange` -/
+theorem forRange_inv {σ : Type} (I : σ → Prop) (lo hi : Int) (init : σ) (f : Int → σ → σ)
+    (h0 : I init) (hs : ∀ i s, lo ≤ i → i < hi → I s → I (f i s)) : I (forRange lo hi init f) := by
+  unfold forRange
+  have key : ∀ (l : List Nat) (init : σ), (∀ k ∈ l, (k : Int) < hi - lo) → I init →
+      I (l.foldl (fun s (k : Nat) => f (lo + Int.ofNat k) s) init) := by
+    intro l
+    induction l with
+    | nil => intro init _ h; exact h
+    | cons a l ih =>
+      intro init hl h
+      have ha := hl a (List.mem_cons_self)
+      exact ih _ (fun k hk => hl k (List.mem_cons_of_mem _ hk))
+        (hs _ _ (by simp only [Int.ofNat_eq_natCast]; omega) (by simp only [Int.ofNat_eq_natCast]; omega) h)
+  apply key _ _ _ h0
+  intro k hk
+  have := List.mem_range.mp hk
+  omega
+
 /-! ## the joint loop -/
 
 /-- the joints `j, j+1, …, j+m-1` -/
@@ -752,5 +771,112 @@ theorem final_chainWrites (a : KinArgs K) (w br : Int) (h : WF a br) (i : Nat) (
       · have : chainBody a br k = chainBody a br i := by simpa using hidx
         have hki := chain_inj a br h k i hk hi this
         subst hki; rfl
+
+
+/-! ## the joint cells (xanchor_out / xaxis_out) -/
+
+theorem jointsFoldW_length (qpos qpos0 : Int → K) (js : List (Joint K)) (s : Pose K) :
+    (jointsFoldW qpos qpos0 js s).2.length = js.length := by
+  induction js generalizing s with
+  | nil => rfl
+  | cons j js ih => simp [jointsFoldW, ih]
+
+theorem kinBodyW_jnt_length (parent : Option (Pose K)) (bp : BodyParams K) (js : List (Joint K))
+    (qpos qpos0 : Int → K) : (kinBodyW parent bp js qpos qpos0).jnt.length = js.length := by
+  have hreg : (regularBodyW parent bp js qpos qpos0).jnt.length = js.length := jointsFoldW_length _ _ _ _
+  match js, hreg with
+  | [], hreg => exact hreg
+  | [j], hreg =>
+    simp only [kinBodyW]
+    by_cases h0 : j.type = 0
+    · simp [h0, freeBodyW]
+    · simp only [h0, if_false]; exact hreg
+  | _ :: _ :: _, hreg => exact hreg
+
+theorem kinChainW_jnt_length (world : Option (Pose K)) (bp : Nat → BodyParams K) (jn : Nat → List (Joint K))
+    (qpos qpos0 : Int → K) (k : Nat) : (kinChainW world bp jn qpos qpos0 k).jnt.length = (jn k).length := by
+  cases k <;> exact kinBodyW_jnt_length _ _ _ _ _
+
+theorem chainOut_jnt_length (a : KinArgs K) (w br : Int) (k : Nat) :
+    (chainOut a w br k).jnt.length = (a.body_jntnum (chainBody a br k)).toNat := by
+  unfold chainOut
+  rw [kinChainW_jnt_length, jointsOf, jointList_length]
+
+omit [Scalar K] in
+/-- the writes of the joint loop: joint `j + r` gets anchor / axis number `r` -/
+theorem mem_jntWrites (w j : Int) (os : List (V3 K × V3 K)) (x : Write K) (hx : x ∈ jntWrites w j os) :
+    ∃ (r : Nat) (h : r < os.length),
+      x = (Write.mk "xanchor_out" [w, j + r] (WVal.v (V3.toList (os[r]).1)) WKind.set : Write K)
+      ∨ x = (Write.mk "xaxis_out" [w, j + r] (WVal.v (V3.toList (os[r]).2)) WKind.set : Write K) := by
+  induction os generalizing j with
+  | nil => cases hx
+  | cons o os ih =>
+    simp only [jntWrites, jntWrite, List.cons_append, List.nil_append, List.mem_cons] at hx
+    rcases hx with rfl | rfl | hx
+    · exact ⟨0, by simp, Or.inl (by simp)⟩
+    · exact ⟨0, by simp, Or.inr (by simp)⟩
+    · obtain ⟨r, hr, h⟩ := ih (j + 1) hx
+      refine ⟨r + 1, by simp; omega, ?_⟩
+      have e : j + 1 + (r : Int) = j + ((r + 1 : Nat) : Int) := by push_cast; omega
+      rw [e] at h
+      simpa using h
+
+omit [Scalar K] in
+theorem mem_bodyWrites_jnt (w b j : Int) (free : Bool) (o : BodyOut K) (x : Write K)
+    (hx : x ∈ bodyWrites w b j free o) (ha : x.arr = "xanchor_out" ∨ x.arr = "xaxis_out") :
+    x ∈ jntWrites w j o.jnt := by
+  have hp : x ∉ poseWrites w b o.pose := by
+    intro hp
+    simp only [poseWrites, List.mem_cons, List.mem_nil_iff, or_false] at hp
+    rcases hp with rfl | rfl <;> rcases ha with h | h <;> simp at h
+  cases free <;> simp only [bodyWrites, if_true, Bool.false_eq_true, if_false, List.mem_append] at hx <;>
+    rcases hx with h | h <;> first | exact h | exact absurd h hp
+
+/-- joint address ranges of different bodies do not overlap (true of every compiled model) -/
+def JntDisjoint (a : KinArgs K) : Prop :=
+  ∀ (b1 b2 : Int) (r1 r2 : Nat), r1 < (a.body_jntnum b1).toNat → r2 < (a.body_jntnum b2).toNat →
+    a.body_jntadr b1 + r1 = a.body_jntadr b2 + r2 → b1 = b2
+
+/-- every write of the thread to `xanchor_out` / `xaxis_out` is entry `r` of the joint results of some chain body -/
+theorem chainWrites_jnt (a : KinArgs K) (w br : Int) (m : Nat) (x : Write K) (hx : x ∈ chainWrites a w br m)
+    (ha : x.arr = "xanchor_out" ∨ x.arr = "xaxis_out") :
+    ∃ (k : Nat) (_ : k < m) (r : Nat) (h : r < (chainOut a w br k).jnt.length),
+      x = (Write.mk "xanchor_out" [w, a.body_jntadr (chainBody a br k) + r]
+            (WVal.v (V3.toList ((chainOut a w br k).jnt[r]).1)) WKind.set : Write K)
+      ∨ x = (Write.mk "xaxis_out" [w, a.body_jntadr (chainBody a br k) + r]
+            (WVal.v (V3.toList ((chainOut a w br k).jnt[r]).2)) WKind.set : Write K) := by
+  obtain ⟨k, hk, hxk⟩ := (mem_chainWrites a w br m x).mp hx
+  obtain ⟨r, hr, h⟩ := mem_jntWrites _ _ _ x (mem_bodyWrites_jnt _ _ _ _ _ x hxk ha)
+  exact ⟨k, hk, r, hr, h⟩
+
+
+/-! ## single-joint bodies -/
+
+omit [Scalar K] in
+theorem jointsOf_single (a : KinArgs K) (w b : Int) (j : Joint K) (h : jointsOf a w b = [j]) :
+    a.body_jntnum b = 1 ∧ j = jointAt a w (a.body_jntadr b) := by
+  have hl : (a.body_jntnum b).toNat = 1 := by
+    have := congrArg List.length h
+    rw [jointsOf, jointList_length] at this
+    simpa using this
+  have h1 : a.body_jntnum b = 1 := by omega
+  refine ⟨h1, ?_⟩
+  rw [jointsOf, hl] at h
+  simp only [jointList, List.cons.injEq, and_true] at h
+  exact h.symm
+
+omit [Scalar K] in
+theorem isFree_single (a : KinArgs K) (w b : Int) (j : Joint K) (h : jointsOf a w b = [j]) :
+    isFree a b = decide (j.type = 0) := by
+  obtain ⟨h1, hj⟩ := jointsOf_single a w b j h
+  subst hj
+  by_cases h0 : a.jnt_type (a.body_jntadr b) = 0 <;> simp [isFree, h1, jointAt, h0]
+
+/-- `kin a w br` is the `for i in range(start, end)` fold of the loop body `f` -/
+def KernelLoop (a : KinArgs K) (w br : Int) (f : Int → List (Write K) → List (Write K)) : Prop :=
+  kin a w br = forRange (a.body_branch_start br) (a.body_branch_start (br + 1)) [] f
+
+theorem kernelLoop (a : KinArgs K) (w br : Int) : KernelLoop a w br (bodyStepG a w) :=
+  kinematics_branch_unfold a w br
 
 end Mjw.Lemmas.C01
